@@ -1,6 +1,7 @@
 //! bpharness — correspondence harness for the Coq model of ark-bulletproofs.
 //! Built against /repo's working tree with --cfg ark_bulletproofs_verif and the instrumented Merlin.
 mod ast;
+mod comp_lc;
 mod comp_r1cs;
 mod gen;
 mod run;
@@ -68,6 +69,20 @@ fn gen_r1cs_curve<G: AffineRepr>(curve: &str, ci: u64, seed: u64, tier: &str, st
     }
 }
 
+fn gen_lc_curve<G: AffineRepr>(curve: &str, ci: u64, seed: u64, tier: &str, sink: &mut Sink) {
+    let modulus = modulus_of::<G>();
+    for (id, tree) in comp_lc::gen_cases::<G::ScalarField>(seed, tier, ci) {
+        let lc = tree.build();
+        let terms = comp_lc::terms_of(&lc);
+        let sh = sink.next % sink.shards.len();
+        sink.next += 1;
+        sink.shards[sh].push_str(&format!("Eval vm_compute in run_lc {}%Z {}.\n", modulus, tree.coq()));
+        sink.order.push((sh, id.clone()));
+        sink.impl_obs.push_str(&format!("{} 1 {}\n", id, terms.join(" ")));
+        sink.summary.push_str(&format!("{} {} tag=lc-tree prover=0 basis=1,0 nterms={}\n", id, curve, terms.len() / 3));
+    }
+}
+
 fn cmd_gen(args: &[String]) {
     let comp = args.get(0).expect("component").clone();
     let seed: u64 = arg(args, "--seed", "1").parse().unwrap();
@@ -94,10 +109,19 @@ fn cmd_gen(args: &[String]) {
                 with_curve!(*curve, gen_r1cs_curve, curve, ci as u64, seed, &tier, &streams, &mut sink);
             }
         }
+        "lc" => {
+            for (ci, curve) in CURVES.iter().enumerate() {
+                if !curves_s.split(',').any(|c| c == *curve) {
+                    continue;
+                }
+                with_curve!(*curve, gen_lc_curve, curve, ci as u64, seed, &tier, &mut sink);
+            }
+        }
         other => panic!("unknown component {}", other),
     }
     let header = match comp.as_str() {
         "r1cs" => "Require Import BP.Run.R1cs.\nSet Printing Width 2000000000.\nSet Printing Depth 2000000000.\n",
+        "lc" => "Require Import BP.Run.Lc.\nSet Printing Width 2000000000.\nSet Printing Depth 2000000000.\n",
         _ => "",
     };
     for (i, s) in sink.shards.iter().enumerate() {
